@@ -187,10 +187,6 @@ func buildC08(e *engine, p *rt.Package) {
 						return
 					}
 					pair := rapid.SampledFrom([]string{"ts->go", "ts->go", "go->ts", "ts->ts"}).Draw(t, "pair")
-					if pair != "ts->go" && !info.BodyVerb && has64BitQuery(info) && e.avoid("ts_server_absent_int64_query_empty_string") {
-						res.excluded(e.cfg.Avoid["ts_server_absent_int64_query_empty_string"] + ":ts_server_absent_int64_query_empty_string")
-						pair = "ts->go"
-					}
 					if pair != "ts->go" && numericPath && e.avoid("ts_server_path_params_are_strings") {
 						res.excluded(e.cfg.Avoid["ts_server_path_params_are_strings"] + ":ts_server_path_params_are_strings")
 						pair = "ts->go"
@@ -214,6 +210,11 @@ func buildC08(e *engine, p *rt.Package) {
 								rm.Set(q.Field, safePathValue(t, q.Field, "rq"))
 							}
 						}
+					}
+					// KF-C08-2 covers exactly the string-typed 64-bit query fields that are absent from the URL
+					if pair != "ts->go" && !info.BodyVerb && absentInt64Query(info, rm) && e.avoid("ts_server_absent_int64_query_empty_string") {
+						res.excluded(e.cfg.Avoid["ts_server_absent_int64_query_empty_string"] + ":ts_server_absent_int64_query_empty_string")
+						pair = "ts->go"
 					}
 					resp := valgen.Message(t, m.NewResp, "resp", o)
 					reqTree, err1 := toTree(req)
@@ -446,11 +447,15 @@ func fillTSDefaults(tree any, md protoreflect.MessageDescriptor) any {
 	return out
 }
 
-func has64BitQuery(info *RPCInfo) bool {
+// absentInt64Query reports a singular 64-bit query field in its default (string) JSON form whose value is
+// zero, i.e. which the clients leave out of the URL.
+func absentInt64Query(info *RPCInfo, rm protoreflect.Message) bool {
 	for _, q := range info.Query {
 		switch q.Field.Kind() {
 		case protoreflect.Int64Kind, protoreflect.Sint64Kind, protoreflect.Sfixed64Kind, protoreflect.Uint64Kind, protoreflect.Fixed64Kind:
-			return true
+			if !q.Field.IsList() && !model.Int64Number(q.Field) && !rm.Has(q.Field) {
+				return true
+			}
 		}
 	}
 	return false
